@@ -35,6 +35,9 @@ func execGov(run *kernel.Run) {
 			run.Probe("strict_quorum_rule_in_force")
 		}
 	}
+	if run.Plan.C("eventlog", 1) == 0 {
+		run.Probe("run_with_event_log_disabled")
+	}
 	m := NewModel()
 	var sig []byte
 	for i, st := range run.Plan.Steps {
@@ -54,6 +57,10 @@ func execGov(run *kernel.Run) {
 			s.badSubmission(st)
 		case "catchup":
 			s.catchup(st)
+		case "fcrash": // the next block is interrupted on a follower at a crash point, then the node restarts
+			if len(s.Nodes) > 1 {
+				s.crashNext = submitPoints[int(abs(st.Arg(0)))%len(submitPoints)]
+			}
 		case "restart":
 			nd := s.Nodes[int(abs(st.Arg(0)))%len(s.Nodes)]
 			nd.Close()
@@ -186,6 +193,35 @@ func (s *Sim) commitBlock(m *Model, nonce uint64) bool {
 		for int(f.Height()) < len(s.Blocks) {
 			b := s.Blocks[f.Height()]
 			before := f.Height()
+			if s.crashNext != "" && f == s.Nodes[1] {
+				point := s.crashNext
+				s.crashNext = ""
+				armCrash(point)
+				crashed, cerr := crashing(func() error {
+					if before%2 == 0 {
+						_, e := f.Produce(b.Block)
+						return e
+					}
+					return f.Sync(b.Block, b.Result.MerkleRoot)
+				})
+				disarm()
+				if crashed {
+					run.Fault("crash:" + point)
+					f.Close()
+					if err := f.Open(); err != nil {
+						run.Fail("C12", "restart-failed", "follower %s failed to restart after crash@%s in block %d: %v", f.Name, point, b.Block.Header.Height, err)
+						s.Dead = true
+						return false
+					}
+					run.Probe("follower_recovered_from_crash")
+					if len(b.Result.CrossHashes) > 0 {
+						run.Probe("crash_in_block_with_cross_chain_records")
+					}
+					continue // re-deliver whatever is still missing
+				}
+				_ = cerr
+				continue
+			}
 			err := f.Sync(b.Block, b.Result.MerkleRoot)
 			if err == nil && f.Height() == before {
 				run.Fail("C13", "valid-successor-silently-not-applied", "follower %s returned success for block %d but did not apply it", f.Name, b.Block.Header.Height)
@@ -296,9 +332,12 @@ func govPlan(rng *kernel.RNG, tier string, w map[string]int, extra func(rng *ker
 		steps = 20 + rng.Intn(120)
 	}
 	st := GenWorkload(rng, GenCfg{NVal: n, Steps: steps, MaxBlock: 6, W: w})
-	// clean restarts of random nodes between steps
+	// clean restarts of random nodes between steps; crashes of a follower inside the next block
 	var out []kernel.Step
 	for _, x := range st {
+		if x.Op == "block" && w != nil && w["crash"] > 0 && rng.Chance(float64(w["crash"])/100) {
+			out = append(out, S("fcrash", int64(rng.Intn(7))))
+		}
 		out = append(out, x)
 		if x.Op == "block" && rng.Chance(0.08) {
 			out = append(out, S("restart", int64(rng.Intn(3))))
@@ -308,6 +347,9 @@ func govPlan(rng *kernel.RNG, tier string, w map[string]int, extra func(rng *ker
 	for i := range out {
 		if out[i].Op != "block" && out[i].Op != "restart" && rng.Chance(forgeRate(w)) {
 			out[i].S = fmt.Sprintf("as:%d", rng.Intn(n+nCands+nUsers))
+			if rng.Chance(0.25) {
+				out[i].S = "zo" // names the all-zero address, signed by the usual key
+			}
 		}
 	}
 	// forced failures after the handler ran (hook H3)
@@ -324,7 +366,11 @@ func govPlan(rng *kernel.RNG, tier string, w map[string]int, extra func(rng *ker
 	if extra != nil {
 		out = extra(rng, out)
 	}
-	return &kernel.Plan{Cfg: map[string]int64{"n": int64(n), "followers": int64(rng.Intn(3)), "maxview": int64(4 + rng.Intn(12)), "net": int64([]int{1, 1, 2, 77}[rng.Intn(4)])}, Steps: out}
+	eventlog := int64(1)
+	if rng.Chance(0.2) {
+		eventlog = 0
+	}
+	return &kernel.Plan{Cfg: map[string]int64{"eventlog": eventlog, "n": int64(n), "followers": int64(rng.Intn(3)), "maxview": int64(4 + rng.Intn(12)), "net": int64([]int{1, 1, 2, 77}[rng.Intn(4)])}, Steps: out}
 }
 
 func forgeRate(w map[string]int) float64 {
@@ -371,7 +417,7 @@ func init() {
 	defs := []def{
 		{"C15", base + "oracle: a failed transaction leaves no writes, cross-chain records or events, and removing the failed transactions leaves the block's state digest unchanged. non-trivial = run with succeeding and failing transactions; distinct by chain of block hashes. 12% of the calls are failed by hook H3 after their handler produced all writes, events and cross-chain records", map[string]int{"ff": 12, "import": 8, "chain": 4, "cand": 3, "relayer": 2, "node": 2, "priv": 2, "sig": 1, "burst": 1, "delonly": 4}, []string{"block_mixing_success_and_failure", "tx_failed", "tx_succeeded", "forced_failure_after_handler", "forced_failure_of_delete_only_call"}},
 		{"C32", base + "oracle: per (action, request) the set of distinct witnessed approvers; the action takes effect iff the number of them that are consensus validators in the pre-state reaches ceil(2N/3). non-trivial/distinct as C15", map[string]int{"chain": 6, "cand": 5, "relayer": 4, "node": 3, "import": 1}, []string{"approval_fired_exactly_at_threshold", "approval_by_non_validator"}},
-		{"C33", base + "oracle: after an approval takes effect its request is no longer pending and no later approval round applies it again without a fresh request", map[string]int{"chain": 6, "cand": 4, "relayer": 5, "node": 1, "import": 1}, []string{"approval_took_effect:approvechain", "approval_took_effect:approvecand", "approval_took_effect:approverelayer"}},
+		{"C33", base + "oracle: after an approval takes effect its request is no longer pending and no later approval round applies it again without a fresh request", map[string]int{"chain": 6, "cand": 4, "relayer": 5, "node": 1, "import": 1, "returning": 3}, []string{"approval_took_effect:approvechain", "approval_took_effect:approvecand", "approval_took_effect:approverelayer", "returning_member_approved"}},
 		{"C34", base + "oracle: pool invariants after every transaction (>=4 active, unique keys and indices, blacklisted keys cannot register) and epoch-change rules (view+1, active->consensus, quitting/black dropped, at most one per block)", map[string]int{"cand": 6, "node": 6, "priv": 3, "chain": 1, "import": 1, "relayer": 1, "twoepochs": 4}, []string{"epoch_change", "blacknode_rejected_second_epoch_in_block"}},
 		{"C35", base + "oracle: the registered record of a chain changes only by an approval taking effect, equals the approved request, and updates/removals stem from a request of the registered owner of the current registration", map[string]int{"chain": 10, "import": 2, "cand": 1, "relayer": 1, "node": 1, "priv": 1}, []string{"approval_took_effect:approvechain", "approval_took_effect:approveupd", "approval_took_effect:approvequit"}},
 	}
@@ -379,8 +425,9 @@ func init() {
 		return func(rng *kernel.RNG, steps []kernel.Step) []kernel.Step {
 			var out []kernel.Step
 			for _, st := range steps {
-				if st.Op == "block" && rng.Chance(0.12) {
-					out = append(out, S("catchup", int64(rng.Intn(3)), int64(rng.Intn(6)), int64(rng.Intn(10)), int64(rng.Intn(1000))))
+				if st.Op == "block" && rng.Chance(0.15) {
+					// scenarios: 0 blocks only, 1 headers first + Byzantine header (weighted), 2 sibling header
+					out = append(out, S("catchup", int64([]int{0, 1, 1, 1, 2}[rng.Intn(5)]), int64(rng.Intn(6)), int64([]int{0, 1, 2, 3, 3, 4, 4}[rng.Intn(7)]), int64(rng.Intn(1000))))
 				}
 				if st.Op == "block" {
 					for rng.Chance(0.45) {
@@ -405,7 +452,7 @@ func init() {
 		def{"C21", base + "oracle: an import whose source or destination chain is unregistered or blacklisted in the pre-state fails with no writes; whitelisting restores acceptance", map[string]int{"import": 10, "priv": 5, "chain": 4, "cand": 1, "node": 1, "relayer": 0}, []string{"import_rejected_source_gate", "import_rejected_destination_gate", "import_released", "privileged_succeeded:blackchain"}},
 		def{"C22", base + "oracle: each accepted import stores exactly one request under (destination, relay tx hash) whose content is (relay tx hash, source chain, voted message) and whose hash is the single new cross-state leaf; rejected imports add neither", map[string]int{"import": 12, "chain": 3, "priv": 1, "cand": 1, "node": 1, "relayer": 0}, []string{"import_released"}},
 		def{"C25", base + "oracle: per message / signed subject the set of distinct voters; only pre-state consensus validators may vote; released / quorum event exactly at the first vote reaching ceil(2N/3) distinct current validators and never again", map[string]int{"import": 8, "sig": 6, "chain": 3, "cand": 2, "node": 2, "priv": 1, "relayer": 0}, []string{"vote_threshold_reached_exactly", "vote_after_release", "sig_quorum_emitted", "sig_after_quorum", "vote_by_non_validator_rejected"}},
-		def{"C08", base + "oracle: for every committed block and every replica, each request record written by the block has a served proof that verifies (merkle.MerkleProve) against the block's committed cross-state root to exactly the stored record, the next header carries that root, and for every ph<h the served block proof verifies against header h's block root to block ph's hash", map[string]int{"import": 14, "chain": 3, "cand": 1, "node": 1, "priv": 1, "relayer": 0, "burst": 1}, []string{"cross_proof_verified", "block_proof_verified"}},
+		def{"C08", base + "oracle: for every committed block and every replica, each request record written by the block has a served proof that verifies (merkle.MerkleProve) against the block's committed cross-state root to exactly the stored record, the next header carries that root, and for every ph<h the served block proof verifies against header h's block root to block ph's hash", map[string]int{"import": 14, "chain": 3, "cand": 1, "node": 1, "priv": 1, "relayer": 0, "burst": 2, "crash": 30}, []string{"cross_proof_verified", "block_proof_verified", "crash_in_block_with_cross_chain_records"}},
 	)
 	defs = append(defs,
 		def{"C16", base + "oracle: every block is executed again on the producer and on each replica (and again for the commit): write set, state-change digest, state root, cross-state root, cross hashes and events must be identical; replicas' stored state roots must equal the producer's for every height. (The wall-clock clause is exercised by the light-client checks; governance contracts read no clock.)", map[string]int{"reexec": 6}, []string{"re_execution_compared", "epoch_change", "import_released"}},
@@ -415,10 +462,13 @@ func init() {
 		d := d
 		kernel.Register(&kernel.Check{ID: d.id, Level: "exploration", Engine: "E1 cluster", Rule: d.rule, Real: e1Real, Stub: e1Stub,
 			Assumptions:    []string{"validator set and request state are observed from the implementation's own pre-state; the oracle counts approvals itself"},
-			QuickRuns:      96, ThoroughRuns: 6000, QuickCap: 100, ThoroughCap: 900,
+			QuickRuns:      quickRuns(d.id), ThoroughRuns: 6000, QuickCap: 100, ThoroughCap: 900,
 			RequiredProbes: d.probes,
 			Generate: func(rng *kernel.RNG, idx int, tier string) *kernel.Plan {
 				pl := govPlan(rng, tier, d.w, extras[d.id])
+				if d.w["crash"] > 0 && pl.Cfg["followers"] == 0 {
+					pl.Cfg["followers"] = 1
+				}
 				if d.w["reexec"] > 0 {
 					pl.Cfg["reexec"] = int64(d.w["reexec"])
 				}
@@ -466,4 +516,11 @@ func diffResults(a, b *store.ExecuteResult) string {
 		}
 	}
 	return ""
+}
+
+func quickRuns(id string) int {
+	if id == "C13" || id == "C14" {
+		return 192 // the header-first / hand-over scenarios need several aligned steps
+	}
+	return 96
 }
